@@ -321,7 +321,7 @@ def store_cases(ctx):
         for k, args in ((0, False), (1, True), (12, False)):
             cases.append({"cap": 64, "args": args, "mode": "kill", "ops": [("E", k, 1010, 5, 6)], "sync": [False], "e": e,
                           "end": None, "close": None, "directed": "first-hook-call"})
-    for _ in range(ctx.n(55, 1200)):
+    for _ in range(ctx.n(40, 1200)):
         cases.append(gen_case(rng))
     return cases
 
@@ -389,7 +389,7 @@ def run_store(ctx, objdir):
         results = list(ex.map(lambda ic: run_case(rec_exe, prod_exe, work, ic[1], ic[0]), enumerate(cases)))
     ctx.log("store-level tie: %d producer runs in %.1fs" % (len(cases), time.time() - t0))
     good_c, good_r = [], []
-    ret_exe = rec_exe
+    ret_exe = (rec_exe, prod_exe, f0)
     for c, r in zip(cases, results):
         if r.get("error"):
             ctx.broken("store-level harness failed on a case: %s" % r["error"], json.dumps(case_json(c))[:2000])
@@ -442,6 +442,155 @@ def store_verdict(ctx, cases, results, res, f0):
                        "cmds/record.c", "first_disagreement": case_json(cases[i], results[i]),
                        "model_expects(shl, flags, wl, file)": model_obs(ctx, cases[i], results[i], f0)}, False)
     ctx.extra["store_disagreements"] = len(res["mismatch"])
+
+
+# ------------------------------------------------------------------ (A2) two producers, one recorder
+def gen_ops(rng, with_args, nops):
+    ops, stack, t = [], [], 1000 + rng.randrange(500)
+    for _ in range(nops):
+        t += rng.randrange(1, 50)
+        if stack and (rng.random() < 0.45 or len(stack) >= 6 or stack[-1] in NOTRACE):
+            stack.pop()
+            ops.append(("X", t, rng.randrange(1 << 40)))
+        else:
+            k = rng.choice([x for x in range(NFUNC) if x != FINISH_FN]) if with_args else rng.choice([0, 7, 8, 10, 11, 12])
+            stack.append(k)
+            ops.append(("E", k, t, rng.randrange(1 << 48), rng.randrange(1 << 32)))
+    return ops
+
+
+def gen_multi_case(rng):
+    with_args = rng.random() < 0.5
+    cap = rng.choice([32, 48, 64, 64, 96, 4080])
+    opss = [gen_ops(rng, with_args, rng.randrange(1, 14)) for _ in range(2)]
+    left = [len(o) for o in opss]
+    acts = []
+    killed = None
+    while left[0] + left[1] > 0:
+        x = rng.random()
+        if x < 0.2:
+            acts.append(("R",))
+            continue
+        i = rng.randrange(2)
+        if left[i] == 0:
+            i = 1 - i
+        if killed is None and rng.random() < 0.12:
+            acts.append(("K", i, rng.randrange(0, 6)))
+            killed = i
+            left[i] = 0                 # the rest of its history never happens
+        else:
+            acts.append(("P", i))
+            left[i] -= 1
+    return {"cap": cap, "args": with_args, "opss": opss, "acts": acts}
+
+
+def multi_script(ops):
+    lines = ["S"]
+    for o in ops:
+        lines.append("E %d %d %d %d" % (o[1], o[2], o[3], o[4]) if o[0] == "E" else "X %d %d" % (o[1], o[2]))
+        lines.append("S")
+    lines.append("EXIT")
+    return lines
+
+
+def run_multi_case(rec_exe, prod_exe, workdir, c, idx):
+    d = os.path.join(workdir, "m%d" % idx)
+    shutil.rmtree(d, ignore_errors=True)
+    os.makedirs(d)
+    scripts = []
+    for i, ops in enumerate(c["opss"]):
+        f = os.path.join(d, "script%d.txt" % i)
+        open(f, "w").write("\n".join(multi_script(ops)) + "\n")
+        scripts.append(f)
+    acts = ["R" if a[0] == "R" else "P%d" % a[1] if a[0] == "P" else "K%d:%d" % (a[1], a[2]) for a in c["acts"]]
+    env = {k: v for k, v in os.environ.items() if not k.startswith("UFTRACE_")}
+    env.update(prod_env(c["args"]))
+    try:
+        p = subprocess.run(["timeout", "60", rec_exe, "multi", d, str(c["cap"] + 16), prod_exe] + scripts + acts,
+                           env=env, capture_output=True, text=True, timeout=90)
+    except subprocess.TimeoutExpired:
+        return {"error": "timeout"}
+    res = {"files": {}}
+    for l in p.stdout.splitlines():
+        k = l.split()
+        if l.startswith("SHL"):
+            res["shl"] = [tuple(int(x) for x in e.split(":")) for e in k[1:]]
+        elif l.startswith("WL"):
+            res["wl"] = [tuple(int(x) for x in e.split(":")) for e in k[1:]]
+        elif l.startswith("FILE"):
+            res["files"][int(k[0][4:])] = bytes.fromhex(k[1]) if len(k) > 1 else b""
+    shutil.rmtree(d, ignore_errors=True)
+    if "shl" not in res or "wl" not in res or len(res["files"]) != 2:
+        res["error"] = "no result (rc=%s): %s" % (p.returncode, p.stderr[-300:])
+    return res
+
+
+def coq_mcase(c, r, f0):
+    def acts():
+        return "; ".join("AR" if a[0] == "R" else "AP %d" % a[1] if a[0] == "P" else "AK %d %d" % (a[1], a[2]) for a in c["acts"])
+    opss = "; ".join(coq_ops({"ops": ops, "args": c["args"]}, f0) for ops in c["opss"])
+    return ("{| mc_cap := %d; mc_ops := [%s]; mc_acts := [%s]; mc_shl := [%s]; mc_wl := [%s]; mc_files := [%s] |}" % (
+        c["cap"], opss, acts(), "; ".join("(%d, %d, %d%%N)" % t for t in r["shl"]),
+        "; ".join("(%d, %d)" % t for t in r["wl"]), "; ".join(coq_bytes(r["files"][i]) for i in (0, 1))))
+
+
+def multi_json(c, r=None):
+    j = {"cap": c["cap"], "args": c["args"], "opss": [[list(o) for o in ops] for ops in c["opss"]], "acts": [list(a) for a in c["acts"]]}
+    if r is not None:
+        j["impl"] = {"shl": r.get("shl"), "wl": r.get("wl"), "files": [r["files"][i].hex() for i in (0, 1)] if len(r.get("files", {})) == 2 else None}
+    return j
+
+
+def eval_multi(ctx, cases, results, f0, name="cases_multi"):
+    defs = "Definition mcases : list mcase := [\n%s\n].\n" % ";\n".join(coq_mcase(c, r, f0) for c, r in zip(cases, results))
+    res = coq.run_cases(ctx, name, PRE, defs, [("mismatch", "bad_indices magrees mcases 0"),
+                                               ("violations", "bad_indices mok_case mcases 0")])
+    return None if res is None else {k: coq.parse_nat_list(v) for k, v in res.items()}
+
+
+def multi_verdict(ctx, cases, results, res):
+    for i in res["violations"][:3]:
+        ctx.violation("C04 violated (two producers, one recorder): a data file left after the tracees died is not a "
+                      "whole-record prefix of what that task executed", {"line": "multi", "case": multi_json(cases[i], results[i])}, True)
+    if res["mismatch"] and not res["violations"]:
+        i = res["mismatch"][0]
+        ctx.violation("multi-thread model and implementation disagree on the recorder's shared lists (%d cases); the "
+                      "property checker accepts the implementation's files" % len(res["mismatch"]),
+                      {"line": "multi", "correspondence": "C04.Model mst / mstep / mfinish vs cmds/record.c with two producers",
+                       "first_disagreement": multi_json(cases[i], results[i])}, False)
+    ctx.extra["multi_disagreements"] = len(res["mismatch"])
+
+
+def run_multi(ctx, rec_exe, prod_exe, f0):
+    rng = ctx.rng
+    cases = [gen_multi_case(rng) for _ in range(ctx.n(20, 300))]
+    work = os.path.join(ctx.scratch, "multi")
+    os.makedirs(work, exist_ok=True)
+    t0 = time.time()
+    with concurrent.futures.ThreadPoolExecutor(max_workers=8) as ex:
+        results = list(ex.map(lambda ic: run_multi_case(rec_exe, prod_exe, work, ic[1], ic[0]), enumerate(cases)))
+    ctx.log("two-producer tie: %d runs in %.1fs" % (len(cases), time.time() - t0))
+    gc, gr = [], []
+    for c, r in zip(cases, results):
+        if r.get("error"):
+            ctx.broken("two-producer harness failed on a case: %s" % r["error"], json.dumps(multi_json(c))[:2000])
+            continue
+        gc.append(c)
+        gr.append(r)
+        tags = ["multi:cap=%d" % c["cap"]]
+        if any(a[0] == "K" for a in c["acts"]):
+            tags.append("multi:one-killed-inside-a-hook-call")
+        if any(a[0] == "R" for a in c["acts"]):
+            tags.append("multi:recorder-interleaved")
+        if len(set(t[0] for t in r["wl"])) == 2:
+            tags.append("multi:both-tids-queued-at-the-end")
+        ctx.case(key=("multi", json.dumps(multi_json(c), sort_keys=True)), nontrivial=any(r["files"].values()), tags=tags,
+                 size=len(c["acts"]))
+    if not gc:
+        return
+    res = eval_multi(ctx, gc, gr, f0)
+    if res is not None:
+        multi_verdict(ctx, gc, gr, res)
 
 
 # ------------------------------------------------------------------ (B) liveness tie
@@ -736,7 +885,7 @@ static void *worker(void *arg)
 {
 	long i = (long)arg;
 	attach(i);
-	do { root(i); if (how == 14) usleep(100); } while (how == 14);
+	do { root(i); if (how == 14) usleep(2000); } while (how == 14);
 	return 0;
 }
 int main(int argc, char **argv)
@@ -757,7 +906,7 @@ int main(int argc, char **argv)
 	attach(0);
 	if (how == 14) quiet = 1;                            /* run until killed from outside; nothing is logged */
 	for (i = 1; i <= NTH; i++) pthread_create(&th[i], 0, worker, (void *)i);
-	do { root(0); if (how == 14) usleep(100); } while (how == 14);
+	do { root(0); if (how == 14) usleep(2000); } while (how == 14);
 	for (i = 1; i <= NTH; i++) pthread_join(th[i], 0);
 	root(0);
 	return 0;
@@ -1005,7 +1154,7 @@ def run_e2e(ctx, objdir):
     for pr in progs:
         for j in range(per):
             how = hows[j % len(hows)]
-            if how == "execv" and pr.get("big"):
+            if how in ("execv", "async_kill") and pr.get("big"):
                 how = "sigkill"         # (the two-image split check is quadratic in the number of records)
             th = rng.randrange(pr["nth"] + 1)
             total = len(pr["full"][th][1])
@@ -1150,6 +1299,8 @@ def e2e_judge(ctx, progs, cases, obs):
             tags.append("e2e:buffer-switched")
         if ob.get("shm_left"):
             tags.append("e2e:shm-objects-left-behind-by-record")
+        ctx.extra.setdefault("e2e_records_by_kind", {})
+        ctx.extra["e2e_records_by_kind"][how] = ctx.extra["e2e_records_by_kind"].get(how, 0) + nrec
         ctx.case(key=("e2e", pr["src"], repr(case)), nontrivial=nrec > 0, tags=tags, size=nrec,
                  sample={"e2e_case": case, "records": nrec} if ci == 0 else None)
     if not ecases:
@@ -1307,7 +1458,8 @@ def run(ctx):
     th = threading.Thread(target=fork_fail_e2e, args=(ctx, objdir, fw))
     th.start()
     try:
-        rec_exe = run_store(ctx, objdir)
+        rec_exe, prod_exe, f0 = run_store(ctx, objdir)
+        run_multi(ctx, rec_exe, prod_exe, f0)
         run_live(ctx, rec_exe)
     except RuntimeError as ex:       # e.g. the harness no longer compiles against cmds/record.c: keep searching end to end
         ctx.broken("store-level / liveness tie could not run: %s" % str(ex)[:300], str(ex))
@@ -1336,6 +1488,21 @@ def replay(ctx, obj):
         ctx.log("model expects", (model_obs(ctx, c, r, f0) or "")[:400])
         if res is not None:
             store_verdict(ctx, [c], [r], res, f0)
+    elif obj.get("line") == "multi":
+        j = obj.get("case") or obj.get("first_disagreement")
+        c = {"cap": j["cap"], "args": j["args"], "opss": [[tuple(o) for o in ops] for ops in j["opss"]],
+             "acts": [tuple(a) for a in j["acts"]]}
+        rec_exe, prod_exe, f0 = build_store(ctx, objdir)
+        work = os.path.join(ctx.scratch, "multi")
+        os.makedirs(work, exist_ok=True)
+        r = run_multi_case(rec_exe, prod_exe, work, c, 0)
+        if r.get("error"):
+            ctx.broken("two-producer harness failed on the replayed case: %s" % r["error"])
+            return
+        ctx.case(key="replay", sample=multi_json(c, r))
+        res = eval_multi(ctx, [c], [r], f0, "replay_multi")
+        if res is not None:
+            multi_verdict(ctx, [c], [r], res)
     elif obj.get("line") == "e2e":
         src, case = obj["program"], dict(obj["case"])
         nth = int(re.search(r"#define NTH (\d+)", src).group(1))
